@@ -234,7 +234,13 @@ def gen_callable(r, idx, profile='mixed'):
             access = [('cls', cls, name), ('inst', cls, name)]
         src = cdeco + f'class {cls}:\n' + m
         twin = f'class {cls}:\n' + tm
-        if kind not in ('bound_direct', 'bound_rk') and r.random() < 0.1:
+        wrap_local = kind not in ('bound_direct', 'bound_rk') and r.random() < 0.1
+        if not wrap_local and kind not in ('bound_direct', 'bound_rk') and r.random() < 0.12:
+            # the member is reached through an (undecorated) SUBCLASS of the class that defines it
+            sub = f'class {cls}s({cls}):\n    pass\n'
+            src += sub; twin += sub
+            access = [(a[0], cls + 's') + tuple(a[2:]) for a in access]
+        if wrap_local:
             # the class is defined inside a function (its __qualname__ contains '<locals>') and then bound at module level
             ind = lambda t: ''.join('    ' + l + '\n' for l in t.splitlines())
             src = f'def _mk{idx}():\n' + ind(src) + f'    return {cls}\n{cls} = _mk{idx}()\n'
